@@ -204,6 +204,21 @@ RenderProg(x) ==
 (***************************************************************************)
 WFaultBase(t) == {p \in WirePkts(t) : Buildable(p) /\ Len(Encode(p)) <= (IF Thorough THEN 64 ELSE 40)}
 WFaultCases == UNION { {[kind |-> "wfault", p |-> p] : p \in WFaultBase(t)} : t \in TYPES }
+               \cup (IF 3 \in TYPES THEN {[kind |-> "wfaultbig", n |-> n] : n \in {127, 128, 1023, 1024, 5000, 70000}} ELSE {})
+               \cup (IF 1 \in TYPES THEN {[kind |-> "wfaultbigc", n |-> n] : n \in {200, 5000}} ELSE {})
+(* long frames: the writer stops at the first and last bytes, around the end of the header and of every kilobyte boundary *)
+BigKs(len, hdrEnd) == {k \in {0, 1, 2, 3, 4, 5, 6, hdrEnd - 1, hdrEnd, hdrEnd + 1, hdrEnd + 2, len \div 2, 1023, 1024, 1025, 4096,
+                               len - 2, len - 1} : k >= 0 /\ k < len}
+WFaultBigProg(x) ==
+  LET p == IF x.kind = "wfaultbig"
+           THEN [t |-> 3, fl |-> 2, v |-> [TopicName |-> Txt(3), PacketID |-> 7, Props |-> <<PV(38, <<Txt(1), Txt(2)>>)>>, Payload |-> Bin(x.n)]]
+           ELSE CHOOSE q \in ConnectPkts({TRUE}, {[w |-> TRUE, wq |-> 1, wr |-> FALSE]}, {TRUE}, {TRUE}, {60}, {<<PV(38, <<Txt(2), Txt(x.n)>>)>>},
+                                         {<<PV(8, Txt(x.n))>>}, {Txt(3)}, {Bin(x.n)}) : TRUE
+      f == Encode(p)
+      ks == SetToSortSeq(BigKs(Len(f), Len(f) - (IF x.kind = "wfaultbig" THEN x.n ELSE 3 * x.n)), LAMBDA a, b : a < b) IN
+  [fam |-> "wfault", meta |-> [t |-> p.t, len |-> Len(f), big |-> TRUE],
+   steps |-> BuildOps(p) \o [i \in 1..Len(ks) |-> [op |-> "WriteTo", h |-> 1, writer |-> [kind |-> "fail", k |-> ks[i]]]]
+             \o <<[op |-> "WriteTo", h |-> 1]>>]
 WFaultProg(x) ==
   LET n == Len(Encode(x.p)) IN
   [fam |-> "wfault", meta |-> [t |-> x.p.t, len |-> n],
@@ -233,7 +248,7 @@ OddProg(x) ==
 CredLens == IF Thorough THEN {1, 2, 9, 10, 255, 65535} ELSE {1, 9, 10, 255}
 Fill(n, b) == [i \in 1..n |-> b]
 CredShapes == {p \in ConnectPkts({TRUE}, {NoWill, [w |-> TRUE, wq |-> 1, wr |-> FALSE]}, {TRUE}, BOOLEAN, {60},
-                                 FewPropSeqs(1), FewPropSeqs(WILLCTX), {Txt(3)}, {Bin(3)}) : TRUE}
+                                 FewPropSeqs(1), FewPropSeqs(WILLCTX), {Txt(3), <<>>}, {Bin(3), <<>>}) : TRUE}
 CredCases ==
   {[kind |-> "cred", p |-> p, n |-> n, variant |-> vr, decoded |-> dc] :
      p \in CredShapes, n \in CredLens, vr \in 1..4, dc \in BOOLEAN}
@@ -261,6 +276,20 @@ CredProg(x) ==
                               [op |-> "WriteTo", h |-> 3], [op |-> "Stream", stream |-> 1, from |-> 3], [op |-> "ReadPacket", h |-> 6, stream |-> 1],
                               [op |-> "Diag", h |-> 5], [op |-> "Diag", h |-> 6], [op |-> "CmpDiag", hs |-> <<5, 6>>]>>]
 
+(* one packet per type carrying every property it may carry (built explicitly: CHOOSE over a set of *)
+(* packets would make TLC sort records whose fields are not comparable)                             *)
+FullPkt(t) ==
+  LET ps == Asc(Allowed(t)) IN
+  IF t = 1 THEN CHOOSE p \in ConnectPkts({TRUE}, {[w |-> TRUE, wq |-> 1, wr |-> TRUE]}, {TRUE}, {TRUE}, {300},
+                                          {ps}, {Asc(Allowed(WILLCTX))}, {Txt(3)}, {Bin(3)}) : TRUE
+  ELSE IF t = 2 THEN [t |-> 2, fl |-> 0, v |-> [AckFlags |-> 1, ReasonCode |-> 0, Props |-> ps]]
+  ELSE IF t = 3 THEN [t |-> 3, fl |-> 11, v |-> [TopicName |-> Txt(3), PacketID |-> 7, Props |-> ps, Payload |-> Bin(5)]]
+  ELSE IF t \in 4..7 THEN [t |-> t, fl |-> IF t = 6 THEN 2 ELSE 0, v |-> [PacketID |-> 7, ReasonCode |-> 128, Props |-> ps]]
+  ELSE IF t = 8 THEN [t |-> 8, fl |-> 2, v |-> [PacketID |-> 7, Props |-> ps, Filters |-> << <<Txt(3), 1>>, <<Txt(1), 2>> >>]]
+  ELSE IF t \in {9, 11} THEN [t |-> t, fl |-> 0, v |-> [PacketID |-> 7, Props |-> ps, ReasonCodes |-> <<1, 128>>]]
+  ELSE IF t = 10 THEN [t |-> 10, fl |-> 2, v |-> [PacketID |-> 7, Props |-> ps, Filters |-> <<Txt(3), Txt(1)>>]]
+  ELSE IF t \in {12, 13} THEN [t |-> t, fl |-> 0, v |-> EmptyFn]
+  ELSE [t |-> t, fl |-> 0, v |-> [ReasonCode |-> IF t = 14 THEN 142 ELSE 24, Props |-> ps]]
 (***************************************************************************)
 (* family "own": decoded packets own their memory; bystanders (C14)        *)
 (***************************************************************************)
@@ -270,11 +299,32 @@ OwnFrames == {f \in ShortFrames : Framed(f) /\ Verdict(f).kind = "accept"} \cup
                <<16, 29, 0, 4, 77, 81, 84, 84, 5, 196, 0, 60, 0, 0, 1, 99, 0, 0, 1, 116, 0, 2, 7, 8, 0, 1, 117, 0, 2, 1, 2>>,
                <<240, 9, 24, 7, 21, 0, 1, 109, 22, 0, 0>> \o <<>> }
 BodyOf(f) == LET d == DecVBI(f, 2, Len(f), Len(f), FALSE) IN SubSeq(f, d.next, Len(f))
+(* CONNECT bodies whose protocol name differs from the constructor's default (decoded leniently by the library) *)
+OddConnects == { <<16, 13, 0, 4, 77, 81, 84, 88, 5, 2, 0, 60, 0, 0, 0>>, <<16, 11, 0, 2, 77, 81, 4, 2, 0, 60, 0, 0, 0>>,
+                 <<16, 27, 0, 4, 77, 81, 84, 84, 5, 4, 0, 60, 0, 0, 1, 99, 0, 0, 1, 116, 0, 7, 72, 69, 76, 76, 79, 33, 33>> }
 OwnCases ==
   {[kind |-> "own", a |-> a, b |-> b, mode |-> md] : a \in OwnFrames, b \in OwnFrames, md \in 1..3}
   \cup {[kind |-> "ownall", a |-> a, t |-> t] : a \in OwnFrames, t \in 0..15}
+  \cup {[kind |-> "owninto", a |-> a] : a \in OwnFrames \cup OddConnects}
+Renumber(ops, base) ==        \* BuildOps uses handles 1 (packet) and 2 (will): shift them
+  [i \in 1..Len(ops) |-> LET s == ops[i] IN
+     IF s.op = "New" THEN [op |-> "New", h |-> s.h + base, type |-> s.type]
+     ELSE CallOp(s.h + base, s.m, IF s.m = "SetWill" THEN <<[h |-> 2 + base]>> ELSE s.args)]
+
 OwnProg(x) ==
-  IF x.kind = "ownall" THEN            \* the body of a given to UnmarshalBinary of every type, then overwritten
+  IF x.kind = "owninto" THEN
+     \* two packets of the frame's type built through the API (sharing whatever constructors share), a fresh one,
+     \* then the frame's body decoded INTO the first: the others must not change
+     LET t == x.a[1] \div 16  tn == TypeName(t) IN
+     [fam |-> "own", meta |-> [kind |-> x.kind],
+      steps |-> <<[op |-> "Buf", buf |-> 1, bytes |-> BodyOf(x.a), observe |-> "all"]>>
+                \o (IF t \in 1..15 THEN Renumber(BuildOps(FullPkt(t)), 0) \o Renumber(BuildOps(FullPkt(t)), 10)
+                    ELSE <<[op |-> "New", h |-> 1, type |-> tn], [op |-> "New", h |-> 11, type |-> tn]>>)
+                \o <<[op |-> "New", h |-> 21, type |-> tn],
+                     [op |-> "Unmarshal", h |-> 1, buf |-> 1, key |-> "into"],
+                     [op |-> "Scribble", buf |-> 1],
+                     [op |-> "WriteTo", h |-> 11], [op |-> "New", h |-> 22, type |-> tn], [op |-> "Diag", h |-> 22]>>]
+  ELSE IF x.kind = "ownall" THEN            \* the body of a given to UnmarshalBinary of every type, then overwritten
      [fam |-> "own", meta |-> [kind |-> x.kind],
       steps |-> <<[op |-> "Buf", buf |-> 1, bytes |-> BodyOf(x.a), observe |-> "all"],
                   [op |-> "Unmarshal", h |-> 1, type |-> TypeName(x.t), buf |-> 1],
@@ -336,35 +386,26 @@ VbiApiProg(x) ==
 (* family "conc": configurations of concurrent read-only operations (C13)  *)
 (***************************************************************************)
 ROps == <<"WriteTo", "String", "Dump", "WellFormed", "Accessors", "ReadPacket">>
-(* one packet per type carrying every property it may carry (built explicitly: CHOOSE over a set of *)
-(* packets would make TLC sort records whose fields are not comparable)                             *)
-FullPkt(t) ==
-  LET ps == Asc(Allowed(t)) IN
-  IF t = 1 THEN CHOOSE p \in ConnectPkts({TRUE}, {[w |-> TRUE, wq |-> 1, wr |-> TRUE]}, {TRUE}, {TRUE}, {300},
-                                          {ps}, {Asc(Allowed(WILLCTX))}, {Txt(3)}, {Bin(3)}) : TRUE
-  ELSE IF t = 2 THEN [t |-> 2, fl |-> 0, v |-> [AckFlags |-> 1, ReasonCode |-> 0, Props |-> ps]]
-  ELSE IF t = 3 THEN [t |-> 3, fl |-> 11, v |-> [TopicName |-> Txt(3), PacketID |-> 7, Props |-> ps, Payload |-> Bin(5)]]
-  ELSE IF t \in 4..7 THEN [t |-> t, fl |-> IF t = 6 THEN 2 ELSE 0, v |-> [PacketID |-> 7, ReasonCode |-> 128, Props |-> ps]]
-  ELSE IF t = 8 THEN [t |-> 8, fl |-> 2, v |-> [PacketID |-> 7, Props |-> ps, Filters |-> << <<Txt(3), 1>>, <<Txt(1), 2>> >>]]
-  ELSE IF t \in {9, 11} THEN [t |-> t, fl |-> 0, v |-> [PacketID |-> 7, Props |-> ps, ReasonCodes |-> <<1, 128>>]]
-  ELSE IF t = 10 THEN [t |-> 10, fl |-> 2, v |-> [PacketID |-> 7, Props |-> ps, Filters |-> <<Txt(3), Txt(1)>>]]
-  ELSE IF t \in {12, 13} THEN [t |-> t, fl |-> 0, v |-> EmptyFn]
-  ELSE [t |-> t, fl |-> 0, v |-> [ReasonCode |-> IF t = 14 THEN 142 ELSE 24, Props |-> ps]]
 ConcBase(t) == FullPkt(t)
 ConcCases ==
-  {[kind |-> "conc", t |-> t, a |-> a, b |-> b, cc |-> cc] :
-     t \in TYPES, a \in 1..6, b \in 1..6, cc \in (IF Thorough THEN 0..6 ELSE {0})}
+  {[kind |-> "conc", t |-> t, a |-> a, b |-> b, cc |-> cc, pre |-> pre] :
+     t \in TYPES, a \in 1..6, b \in 1..6, cc \in (IF Thorough THEN 0..6 ELSE {0}), pre \in BOOLEAN}
 ConcValid(x) == x.a <= x.b /\ (x.cc = 0 \/ x.b <= x.cc)
 ConcProg(x) ==
   LET p == ConcBase(x.t)
       shared == x.t = 1 /\ "WillProps" \in DOMAIN p.v        \* the will PUBLISH (handle 2) is also used directly
       ops == <<ROps[x.a], ROps[x.b]>> \o (IF x.cc = 0 THEN <<>> ELSE <<ROps[x.cc]>>)
   IN [fam |-> "conc", meta |-> [t |-> x.t, ops |-> ops],
-      steps |-> BuildOps(p) \o <<[op |-> "WriteTo", h |-> 1]>>
-                \o (IF shared THEN <<[op |-> "WriteTo", h |-> 2]>> ELSE <<>>)
+      \* pre: the packets are encoded once sequentially before the goroutines start (gives the expected bytes);
+      \* ~pre: the first encoding ever happens concurrently, and a CONNECT's will is completed after SetWill
+      steps |-> BuildOps(p)
+                \o (IF ~x.pre /\ shared THEN <<CallOp(2, "SetPayload", <<Bin(7)>>), CallOp(2, "SetCorrelationData", <<Bin(2)>>)>> ELSE <<>>)
+                \o (IF x.pre THEN <<[op |-> "WriteTo", h |-> 1]>> ELSE <<>>)
+                \o (IF x.pre /\ shared THEN <<[op |-> "WriteTo", h |-> 2]>> ELSE <<>>)
                 \o <<[op |-> "Conc", hs |-> IF shared THEN <<1, 2, 1>> ELSE <<1>>, ops |-> ops,
-                      procs |-> IF Thorough THEN 8 ELSE 4, n |-> IF Thorough THEN 2000 ELSE 200],
-                     [op |-> "Diag", h |-> 1]>>]
+                      procs |-> IF Thorough THEN 8 ELSE 4, n |-> IF Thorough THEN 2000 ELSE 200]>>
+                \* (a will completed after SetWill is outside the record-of-fields model, D1: no accessor comparison there)
+                \o (IF ~x.pre /\ shared THEN <<>> ELSE <<[op |-> "Diag", h |-> 1]>>)]
 
 (***************************************************************************)
 Cases2 ==
@@ -394,9 +435,10 @@ ProgOf2(x) ==
   ELSE IF x.kind = "wfwire" THEN WfWireProg(x)
   ELSE IF x.kind \in {"rcode", "rcodes", "cflags", "aflags", "zero"} THEN RenderProg(x)
   ELSE IF x.kind = "wfault" THEN WFaultProg(x)
+  ELSE IF x.kind \in {"wfaultbig", "wfaultbigc"} THEN WFaultBigProg(x)
   ELSE IF x.kind = "odd" THEN OddProg(x)
   ELSE IF x.kind = "cred" THEN CredProg(x)
-  ELSE IF x.kind \in {"own", "ownall"} THEN OwnProg(x)
+  ELSE IF x.kind \in {"own", "ownall", "owninto"} THEN OwnProg(x)
   ELSE IF x.kind \in {"vbienc", "vbidec"} THEN VbiProg(x)
   ELSE IF x.kind = "vbiapi" THEN VbiApiProg(x)
   ELSE IF x.kind = "conc" THEN ConcProg(x)
